@@ -71,8 +71,8 @@ func (ga *GoAway) SetData(b []byte) {
 }
 
 func (ga *GoAway) Deserialize(fr *FrameHeader) (err error) {
-	if len(fr.payload) < 8 { // 8 is the min number of bytes
-		err = ErrMissingBytes
+	if len(fr.payload) < 8 { // 8 is the min number of bytes (RFC 7540 6.8)
+		err = NewGoAwayError(FrameSizeError, "GOAWAY frame shorter than 8 octets")
 	} else {
 		ga.stream = http2utils.BytesToUint32(fr.payload) & (1<<31 - 1)
 		ga.code = ErrorCode(http2utils.BytesToUint32(fr.payload[4:]))
